@@ -229,7 +229,8 @@ func TestC18Stress(t *testing.T) {
 	// application's Send path looks at the size - all at the same instants
 	noteCurrent(dir, map[string]any{"scenario": "c18stress-queue"})
 	for _, sp := range []uint8{2, 4} {
-		vq := gbn.NewVerifQueue(sp, nil, gbn.WithStaticResendTimeout(300*time.Microsecond))
+		vq := gbn.NewVerifQueue(sp, nil, gbn.WithStaticResendTimeout(300*time.Microsecond),
+			gbn.WithHandshakeTimeout(200*time.Microsecond)) // (resend skips while "resent recently", measured by the handshake timeout)
 		end = time.Now().Add(dur)
 		var ops [3]atomic.Int64
 		qdone := make(chan struct{})
